@@ -25,22 +25,121 @@ PROPS = {
         "modelled": COMMON_MODELLED,
         "assumptions": ["lengths < 2^62, ints are 64-bit"],
     },
+    "C03": {
+        "lean": ["Stackage.Props.C03"],
+        "streams": [{"name": "capx", "quick": 3000, "thorough": 60000}],
+        "rule": "histories hugging the capacity boundary: push batches that partly fit, Insert, Transfer-into, pop/remove/reset then grow again; "
+                "k in 1..6 (and no capacity), every kind, LIFO/FIFO; Len/Cap/Avail/IsFull and return values compared after every step; "
+                "non-trivial = at least 3 operations of at least 2 kinds",
+        "modelled": COMMON_MODELLED,
+        "assumptions": ["Marshal-into is covered through Push (C16 check exercises Marshal into initialised receivers)"],
+    },
+    "C13": {
+        "lean": ["Stackage.Props.C13"],
+        "streams": [{"name": "nest", "quick": 3000, "thorough": 60000}],
+        "rule": "push batches mixing stacks, aliases (with/without String), pointers to aliases, zero-valued instances, Conditions, nil and primitives, "
+                "interleaved with switching no-nesting on/off, on every kind; content, CanNest and IsNesting compared after every step",
+        "modelled": COMMON_MODELLED,
+    },
+    "C14": {
+        "lean": ["Stackage.Props.C14"],
+        "streams": [{"name": "pol", "quick": 3000, "thorough": 60000}],
+        "rule": "push batches against five push policies (reject nil / strings / ints>5 / nothing / everything) with install/replace/remove, with and "
+                "without capacity; content and Err() class compared after every step",
+        "modelled": COMMON_MODELLED,
+        "assumptions": ["policies are pure functions of the offered value"],
+    },
+    "C15": {
+        "lean": ["Stackage.Props.C15"],
+        "streams": [{"name": "xfer", "quick": 3000, "thorough": 60000}],
+        "rule": "|src| 0..5 x |dst| 0..5 x capacity none or 1..6 x destination forms {native, alias, alias with String, pointer, read-only, zero, foreign} x "
+                "source LIFO/FIFO with nil elements, some destinations with push policy / no-nesting; result flag, destination and source content compared",
+        "modelled": COMMON_MODELLED,
+        "assumptions": ["source and destination are distinct objects (s.Transfer(s) does not terminate; outside the model)"],
+    },
 }
 
 
-def _tokens_drop(prefixes):
+def _project_obs(text, keep):
+    """keep only the observation token classes in `keep`:
+    ret (return values), L, I (the Index block), F, B, E, c, a, u, N, G, R; src{..}/dst{..} blocks are projected recursively"""
+    out, toks, k = [], text.split(" "), 0
+    seenL = False
+    while k < len(toks):
+        t = toks[k]
+        if t.startswith("src{") or t.startswith("dst{"):
+            depth, j = 0, k
+            while True:
+                depth += toks[j].count("{") - toks[j].count("}")
+                if depth <= 0:
+                    break
+                j += 1
+            inner = " ".join(toks[k:j + 1])
+            head, body = inner[:4], inner[4:-1]
+            out.append(head + _project_obs(body, keep) + "}")
+            k = j + 1
+            continue
+        if t == "[" or t.startswith("["):
+            j = k
+            while not toks[j].endswith("]"):
+                j += 1
+            if "I" in keep:
+                out.append(" ".join(toks[k:j + 1]))
+            k = j + 1
+            continue
+        m = re.fullmatch(r"L-?\d+", t)
+        if m:
+            seenL = True
+            if "L" in keep:
+                out.append(t)
+        elif not seenL:
+            if "ret" in keep:
+                out.append(t)
+        else:
+            cls = t[:1]
+            if cls in keep:
+                out.append(t)
+            elif cls not in "FBEcauNGR":
+                out.append(t)
+        k += 1
+    return " ".join(out)
+
+
+def _keep(*classes):
+    ks = set(classes)
     def f(out):
-        steps = []
-        for st in out.split(" ; "):
-            steps.append(" ".join(t for t in st.split(" ") if not (t[:1] in prefixes and re.fullmatch(r"[cau]-?\d+", t))))
-        return " ; ".join(steps)
+        return " ; ".join(_project_obs(st, ks) for st in out.split(" ; "))
     return f
 
 
+def _c03(out):
+    """C03 looks at Len/Cap/Avail/IsFull. A Transfer-into step is projected to the invariants only (its result flag and
+    all-or-nothing behaviour belong to C15): Cap constant, Avail == Cap-Len, IsFull == (Len==Cap), Len <= Cap."""
+    steps = []
+    for st in out.split(" ; "):
+        pr = _project_obs(st, {"ret", "L", "c", "a", "u"})
+        if "src{" in st:
+            m = re.search(r"\} L(-?\d+) c(-?\d+) a(-?\d+) u([01])", pr)
+            if m:
+                L, c, a, u = int(m.group(1)), int(m.group(2)), int(m.group(3)), m.group(4)
+                okc = (c == -1 and a == -1 and u == "0") or (c > 0 and L <= c and a == c - L and (u == "1") == (L == c))
+                pr = "xferto c%d inv=%s" % (c, okc)
+        steps.append(pr)
+    return " ; ".join(steps)
+
+
+PROJ = {
+    "C01": _keep("ret", "L", "I", "F", "B", "E"),
+    "C08": _keep("ret", "L", "I", "F", "B", "E", "c", "a", "u"),
+    "C03": _c03,
+    "C13": _keep("L", "I", "N", "G"),
+    "C14": _keep("L", "I", "R"),
+    "C15": _keep("ret", "L", "I"),
+}
+
+
 def projection(pid, stream):
-    if pid == "C01" and stream == "hist":
-        return _tokens_drop("cau")        # capacity getters belong to C03
-    return lambda s: s
+    return PROJ.get(pid, lambda s: s)
 
 
 def in_scope(pid, stream, tags):
@@ -52,6 +151,10 @@ def in_scope(pid, stream, tags):
 def nontrivial(pid, payload):
     ops = payload.rsplit(" | ", 1)[-1].split(" ; ")
     kinds = {o.split(" ")[0] for o in ops if o}
+    if pid == "C15":
+        return " [ ]" not in payload.split(" | ")[0]     # non-empty source
+    if pid in ("C13", "C14"):
+        return len(ops) >= 2
     return len(ops) >= 3 and len(kinds) >= 2
 
 
